@@ -148,6 +148,14 @@ func (w *writer) oneof(depth int, o *Oneof) {
 	w.line(depth, "}")
 }
 
+// withZero prepends the explicitly written zero option, if any.
+func withZero(e *Enum) []*EnumOption {
+	if e.ExplicitZero == nil {
+		return e.Options
+	}
+	return append([]*EnumOption{e.ExplicitZero}, e.Options...)
+}
+
 func (w *writer) enumOptions(depth int, kw string, opts []*EnumOption) {
 	for _, o := range opts {
 		if len(o.Info) == 0 {
@@ -182,7 +190,7 @@ func (w *writer) enum(depth int, e *Enum) {
 	if e.Prefix != "" {
 		w.line(depth+1, "prefix = "+q(e.Prefix))
 	}
-	w.enumOptions(depth+1, "option", e.Options)
+	w.enumOptions(depth+1, "option", withZero(e))
 	w.line(depth, "}")
 }
 
@@ -433,7 +441,7 @@ func (w *writer) field(depth int, kw string, f *Field) {
 		if e.Prefix != "" {
 			body = append(body, "enum.prefix = "+q(e.Prefix))
 		}
-		inlineWrite = func(d int) { w.enumOptions(d, "option", e.Options) }
+		inlineWrite = func(d int) { w.enumOptions(d, "option", withZero(e)) }
 	}
 
 	headLine := fmt.Sprintf("%s %s %s%s", kw, f.Name, mark, head)
